@@ -46,10 +46,21 @@ def observe(call):
 def pyint(x):
     return None if x is None else int(x)
 
+def typed_weight(k, v):
+    """the weight as some integer scalar type that holds it exactly (chosen from the data, so that a replay passes the same
+    objects): Python int, numpy.int64 / int32 / int16 / int8, and numpy.uint8 / bool_ where the value allows"""
+    types = [int, np.int64]
+    if -2 ** 31 <= v < 2 ** 31: types.append(np.int32)
+    if -2 ** 15 <= v < 2 ** 15: types.append(np.int16)
+    if -128 <= v < 128: types.append(np.int8)
+    if 0 <= v < 256: types.append(np.uint8)
+    if v in (0, 1): types.append(np.bool_)
+    return types[(sum(map(ord, str(k))) + abs(int(v))) % len(types)](v)
+
 def run_solve(c):
     m = build(c["model"])
     rs = RecordingSolver(script_fn(c["script"]))
-    objs = [dict((k, v) for k, v in o) for o in c["objs"]]
+    objs = [dict((k, typed_weight(k, v)) for k, v in o) for o in c["objs"]]
     def call():
         out = m.solve(objs, solver=rs, include_virtual_variables=c["incl"])
         return [({k: int(v) for k, v in d.items()}, pyint(ov), int(sc)) for d, ov, sc in out]
@@ -58,7 +69,7 @@ def run_solve(c):
 def run_select(c):
     cfg = build(c["model"])
     rs = RecordingSolver(script_fn(c["script"]))
-    prios = [dict((k, v) for k, v in o) for o in c["prios"]]
+    prios = [dict((k, typed_weight(k, v)) for k, v in o) for o in c["prios"]]
     with CompressRecorder() as cr:
         def call():
             out = list(cfg.select(*prios, solver=rs, only_leafs=c["only_leafs"]))
